@@ -7,7 +7,6 @@ import (
 
 	"github.com/orda-io/orda/client/pkg/model"
 	"github.com/orda-io/orda/client/pkg/orda"
-	"github.com/orda-io/orda/server/service"
 	"google.golang.org/grpc"
 	"google.golang.org/grpc/codes"
 	"google.golang.org/grpc/status"
@@ -46,7 +45,7 @@ func (e *Env) SetGRPCRequestHook(h func(method string, req proto.Message) (dropR
 }
 
 func proxied[Q, R proto.Message](p *proxy, method string, ctx gocontext.Context, in Q,
-	fn func(*service.OrdaService, gocontext.Context, Q) (R, error)) (R, error) {
+	fn func(model.OrdaServiceServer, gocontext.Context, Q) (R, error)) (R, error) {
 	var zero R
 	e := p.env
 	atomic.AddInt32(&e.inFlight, 1)
@@ -74,37 +73,37 @@ func proxied[Q, R proto.Message](p *proxy, method string, ctx gocontext.Context,
 }
 
 func (p *proxy) ProcessPushPull(ctx gocontext.Context, in *model.PushPullMessage) (*model.PushPullMessage, error) {
-	return proxied(p, "ProcessPushPull", ctx, in, func(s *service.OrdaService, c gocontext.Context, m *model.PushPullMessage) (*model.PushPullMessage, error) {
+	return proxied(p, "ProcessPushPull", ctx, in, func(s model.OrdaServiceServer, c gocontext.Context, m *model.PushPullMessage) (*model.PushPullMessage, error) {
 		return s.ProcessPushPull(c, m)
 	})
 }
 
 func (p *proxy) ProcessClient(ctx gocontext.Context, in *model.ClientMessage) (*model.ClientMessage, error) {
-	return proxied(p, "ProcessClient", ctx, in, func(s *service.OrdaService, c gocontext.Context, m *model.ClientMessage) (*model.ClientMessage, error) {
+	return proxied(p, "ProcessClient", ctx, in, func(s model.OrdaServiceServer, c gocontext.Context, m *model.ClientMessage) (*model.ClientMessage, error) {
 		return s.ProcessClient(c, m)
 	})
 }
 
 func (p *proxy) PatchDocument(ctx gocontext.Context, in *model.PatchMessage) (*model.PatchMessage, error) {
-	return proxied(p, "PatchDocument", ctx, in, func(s *service.OrdaService, c gocontext.Context, m *model.PatchMessage) (*model.PatchMessage, error) {
+	return proxied(p, "PatchDocument", ctx, in, func(s model.OrdaServiceServer, c gocontext.Context, m *model.PatchMessage) (*model.PatchMessage, error) {
 		return s.PatchDocument(c, m)
 	})
 }
 
 func (p *proxy) CreateCollection(ctx gocontext.Context, in *model.CollectionMessage) (*model.CollectionMessage, error) {
-	return proxied(p, "CreateCollection", ctx, in, func(s *service.OrdaService, c gocontext.Context, m *model.CollectionMessage) (*model.CollectionMessage, error) {
+	return proxied(p, "CreateCollection", ctx, in, func(s model.OrdaServiceServer, c gocontext.Context, m *model.CollectionMessage) (*model.CollectionMessage, error) {
 		return s.CreateCollection(c, m)
 	})
 }
 
 func (p *proxy) ResetCollection(ctx gocontext.Context, in *model.CollectionMessage) (*model.CollectionMessage, error) {
-	return proxied(p, "ResetCollection", ctx, in, func(s *service.OrdaService, c gocontext.Context, m *model.CollectionMessage) (*model.CollectionMessage, error) {
+	return proxied(p, "ResetCollection", ctx, in, func(s model.OrdaServiceServer, c gocontext.Context, m *model.CollectionMessage) (*model.CollectionMessage, error) {
 		return s.ResetCollection(c, m)
 	})
 }
 
 func (p *proxy) TestEncodingOperation(ctx gocontext.Context, in *model.EncodingMessage) (*model.EncodingMessage, error) {
-	return proxied(p, "TestEncodingOperation", ctx, in, func(s *service.OrdaService, c gocontext.Context, m *model.EncodingMessage) (*model.EncodingMessage, error) {
+	return proxied(p, "TestEncodingOperation", ctx, in, func(s model.OrdaServiceServer, c gocontext.Context, m *model.EncodingMessage) (*model.EncodingMessage, error) {
 		return s.TestEncodingOperation(c, m)
 	})
 }
